@@ -12,11 +12,19 @@ use serde::{Deserialize, Serialize};
 use vcore::*;
 
 #[derive(Clone, Debug, Hash, Serialize, Deserialize)]
-pub struct C01Case {
+pub struct C01Op {
     pub a: Operand,
     pub b: Rhs,
     pub op: BinOp,
     pub form: Form,
+}
+
+#[derive(Clone, Debug, Hash, Serialize, Deserialize)]
+pub enum C01Case {
+    /// a + b, a - b, a * b through the public operators
+    Op(C01Op),
+    /// the per-word-type primitives and the word re-chunking, through the `verif-hooks` re-export
+    Prim(super::prim::PrimCase),
 }
 
 pub struct C01;
@@ -148,10 +156,10 @@ impl Property for C01 {
         "C01"
     }
     fn rule(&self) -> String {
-        "Cases: (LHS operand any zoo type/length/provenance, RHS vector of any type/length/provenance or native integer, op in {+,-,*}, one of 6 forms). Enumerated: all (n,a,m,b) n,m<=3 (quick)/<=5 (thorough) x 18x18 pairings x 3 ops; all (n,a) x integer lattice x 18 x 6 native types; word-pattern lattice {0,1,MAX-1,MAX,MSB,MSB-1}^words for both operands at lengths {kw-1,kw,kw+1,C} on every multi-word type (RHS same type and Bvd / Bvf<u8,17>), all 2^16 value pairs of Bvf<u8,1> at n=m=8; thorough adds 3-word lattices and all values of Bvf<u8,2> x {Bvf<u8,2>,Bvd} for n<=11. Random: proptest with related pairs (b = a, a+-1, 2^n-a, one bit flipped). Oracle: BigUint/u128 (val a op val b) mod 2^n + observer battery. Non-trivial: n>0, both values non-zero and (the true result wrapped: >= 2^n or < 0; or a carry/borrow crossed a storage-word boundary of the LHS; or for * both operands have >= 2 non-zero words). Distinct by hash of the whole case.".into()
+        "Cases: (LHS operand any zoo type/length/provenance, RHS vector of any type/length/provenance or native integer, op in {+,-,*}, one of 6 forms). Enumerated: all (n,a,m,b) n,m<=3 (quick)/<=5 (thorough) x 18x18 pairings x 3 ops; all (n,a) x integer lattice x 18 x 6 native types; word-pattern lattice {0,1,MAX-1,MAX,MSB,MSB-1}^words for both operands at lengths {kw-1,kw,kw+1,C} on every multi-word type (RHS same type and Bvd / Bvf<u8,17>), all 2^16 value pairs of Bvf<u8,1> at n=m=8; thorough adds 3-word lattices and all values of Bvf<u8,2> x {Bvf<u8,2>,Bvd} for n<=11. Also (through the verif-hooks re-export) the word primitives cadd/csub/wmul/mask of all six word types on an integer lattice squared (u8 exhaustively) and the slice re-chunking get_int/set_int for all 36 word-type pairs. Random: proptest with related pairs (b = a, a+-1, 2^n-a, one bit flipped). Oracle: BigUint/u128 (val a op val b) mod 2^n + observer battery. Non-trivial: n>0, both values non-zero and (the true result wrapped: >= 2^n or < 0; or a carry/borrow crossed a storage-word boundary of the LHS; or for * both operands have >= 2 non-zero words). Distinct by hash of the whole case.".into()
     }
     fn random_cases(&self, tier: Tier) -> u64 {
-        tier.pick(60_000, 800_000)
+        tier.pick(300000, 1600000)
     }
     fn strategy(&self, tier: Tier) -> BoxedStrategy<C01Case> {
         let lmax = lmax_dyn(tier);
@@ -159,10 +167,19 @@ impl Property for C01 {
             let m = realize_len(&bls, bt, lmax);
             let indep = realize_val(&bvp, m, WORD_BITS[bt as usize]);
             let bb = related(&a.bits, m, &rel, indep);
-            C01Case { a, b: Rhs::V(Operand { ty: bt, bits: bb, prov: bprov }), op: ARITH[o], form }
+            C01Case::Op(C01Op { a, b: Rhs::V(Operand { ty: bt, bits: bb, prov: bprov }), op: ARITH[o], form })
         });
-        let nat_case = (arb_operand(tier), arb_nat(), 0usize..3, arb_form()).prop_map(|(a, x, o, form)| C01Case { a, b: Rhs::N(x), op: ARITH[o], form });
-        prop_oneof![3 => vec_case, 1 => nat_case].boxed()
+        let nat_case = (arb_operand(tier), arb_nat(), 0usize..3, arb_form()).prop_map(|(a, x, o, form)| C01Case::Op(C01Op { a, b: Rhs::N(x), op: ARITH[o], form }));
+        use super::prim::{PrimCase, PrimKind};
+        let word = (arb_nat_ty(), 0usize..4, arb_nat(), arb_nat(), arb_nat(), any::<u8>()).prop_map(|(ty, k, a, b, c, l)| {
+            let kind = [PrimKind::Cadd, PrimKind::Csub, PrimKind::Wmul, PrimKind::Mask][k];
+            let a = if kind == PrimKind::Mask { Nat::new(NatTy::U128, l as u128 * 2) } else { Nat::new(NatTy::U128, a.v) };
+            C01Case::Prim(PrimCase::Word { ty, kind, a, b: Nat::new(NatTy::U128, b.v), c: Nat::new(NatTy::U128, if c.v % 3 == 0 { c.v } else { c.v % 3 }) })
+        });
+        let chunk = (arb_nat_ty(), arb_nat_ty(), proptest::collection::vec(any::<u128>(), 0..6), 0usize..12, any::<u128>()).prop_map(|(src, dst, ws, idx, val)| {
+            C01Case::Prim(PrimCase::Chunk { src, dst, words: ws.into_iter().map(|w| Nat::new(NatTy::U128, w)).collect(), idx, val: Nat::new(NatTy::U128, val) })
+        });
+        prop_oneof![9 => vec_case, 3 => nat_case, 2 => word, 1 => chunk].boxed()
     }
     fn exhaustive_subspaces(&self, tier: Tier) -> Vec<String> {
         let k = tier.pick(3, 5);
@@ -170,6 +187,7 @@ impl Property for C01 {
             format!("all values of both operands for all lengths n,m<={} x 18x18 type pairings x {{+,-,*}} (form rotates)", k),
             format!("all values for n<={} x integer lattice x 18 LHS types x 6 native RHS types x {{+,-,*}}", k),
             "all 2^16 value pairs of Bvf<u8,1> at n=m=8 x {+,-,*}".into(),
+            "primitives (verif-hooks): u8::cadd/csub for all 2^16 operand pairs x carry in {0,1,2,255}, u8::wmul for all pairs; mask(l) for every l in 0..=2w+1 on all six word types; word re-chunking get_int/set_int for all 36 (array word, chunk word) type pairs x arrays of 0..4 words x every index".into(),
         ];
         if tier == Tier::Thorough {
             v.push("all values of Bvf<u8,2> (n<=11) x all values of {Bvf<u8,2>,Bvd} (m in {0,1,7,8,9,11}) x {+,-,*}".into());
@@ -181,7 +199,7 @@ impl Property for C01 {
         let mut rot = 0usize;
         let mut emit = |lt: Tid, a: &Bits, b: Rhs, op: BinOp, f: &mut dyn FnMut(C01Case) -> bool| -> bool {
             rot += 1;
-            f(C01Case { a: Operand::canon(lt, a.clone()), b, op, form: FORMS[rot % 6] })
+            f(C01Case::Op(C01Op { a: Operand::canon(lt, a.clone()), b, op, form: FORMS[rot % 6] }))
         };
         // (i) complete small scope, vector RHS
         for lt in 0..NT {
@@ -294,6 +312,77 @@ impl Property for C01 {
                 }
             }
         }
+        // (vi) the primitives themselves (verif-hooks): u8 exhaustively, wider types on the lattice
+        {
+            use super::prim::{PrimCase, PrimKind};
+            let n128 = |v: u128| Nat::new(NatTy::U128, v);
+            for av in 0u128..256 {
+                if !sh.mine() {
+                    continue;
+                }
+                for bv in 0u128..256 {
+                    for c in [0u128, 1, 2, 255] {
+                        for kind in [PrimKind::Cadd, PrimKind::Csub] {
+                            if !f(C01Case::Prim(PrimCase::Word { ty: NatTy::U8, kind, a: n128(av), b: n128(bv), c: n128(c) })) {
+                                return;
+                            }
+                        }
+                    }
+                    if !f(C01Case::Prim(PrimCase::Word { ty: NatTy::U8, kind: PrimKind::Wmul, a: n128(av), b: n128(bv), c: n128(0) })) {
+                        return;
+                    }
+                }
+            }
+            for ty in NAT_TYS {
+                if !sh.mine() {
+                    continue;
+                }
+                let mut lat = nat_lattice(ty);
+                let m = ty.maxv();
+                lat.extend([m / 2, m / 2 + 1, m / 3, m - m / 3, 0x0123_4567_89AB_CDEF_FEDC_BA98_7654_3210 & m, 0xFFFF_FFFF_0000_0000_FFFF_FFFF_0000_0001 & m, (m >> (ty.bits() / 2)), (m >> (ty.bits() / 2)) + 1, m << (ty.bits() / 2) & m]);
+                lat.sort();
+                lat.dedup();
+                for &a in &lat {
+                    for &b in &lat {
+                        for c in [0u128, 1, 2, m] {
+                            for kind in [PrimKind::Cadd, PrimKind::Csub] {
+                                if !f(C01Case::Prim(PrimCase::Word { ty, kind, a: n128(a), b: n128(b), c: n128(c) })) {
+                                    return;
+                                }
+                            }
+                        }
+                        if !f(C01Case::Prim(PrimCase::Word { ty, kind: PrimKind::Wmul, a: n128(a), b: n128(b), c: n128(0) })) {
+                            return;
+                        }
+                    }
+                }
+                for l in 0..=(2 * ty.bits() + 1) {
+                    if !f(C01Case::Prim(PrimCase::Word { ty, kind: PrimKind::Mask, a: n128(l as u128), b: n128(0), c: n128(0) })) {
+                        return;
+                    }
+                }
+            }
+            for src in NAT_TYS {
+                for dst in NAT_TYS {
+                    if !sh.mine() {
+                        continue;
+                    }
+                    for count in 0..=4usize {
+                        for pat in 0..2u128 {
+                            let words: Vec<Nat> = (0..count as u128).map(|i| n128(if pat == 0 { u128::MAX } else { (i + 1).wrapping_mul(0x0123_4567_89AB_CDEF_1122_3344_5566_7788) })).collect();
+                            let il = (count * src.bits() + dst.bits() - 1) / dst.bits();
+                            for idx in 0..=(il + 1) {
+                                for val in [0u128, 0xA5A5_5A5A_C3C3_3C3C_0FF0_F00F_1234_8765] {
+                                    if !f(C01Case::Prim(PrimCase::Chunk { src, dst, words: words.clone(), idx, val: n128(val) })) {
+                                        return;
+                                    }
+                                }
+                            }
+                        }
+                    }
+                }
+            }
+        }
         // (v) thorough: all values of Bvf<u8,2> across its word boundary
         if tier == Tier::Thorough {
             for rt in [1u8, TID_D] {
@@ -318,7 +407,19 @@ impl Property for C01 {
     }
 
     fn check(&self, case: &C01Case, st: &mut Stats) -> CheckResult {
-        let C01Case { a, b, op, form } = case;
+        let C01Op { a, b, op, form } = match case {
+            C01Case::Op(o) => o,
+            C01Case::Prim(p) => {
+                super::prim::check_prim(p)?;
+                let (cls, nt) = match p {
+                    super::prim::PrimCase::Word { ty, kind, a, b, .. } => (format!("primitive {:?}", kind), a.v & ty.maxv() != 0 && b.v & ty.maxv() != 0 && (ty.bits() > 8 || *kind == super::prim::PrimKind::Wmul)),
+                    super::prim::PrimCase::Chunk { src, dst, words, .. } => ("primitive re-chunking".to_string(), src != dst && words.len() >= 2),
+                };
+                st.class(&cls);
+                st.note(case, nt);
+                return Ok(());
+            }
+        };
         ensure!(ARITH.contains(op), "bad-case", "C01 case with non-arithmetic operator");
         let what = format!("{}:{}:{}x{}", op_name(*op), shape_class(a, b), kind_of(a.ty), rhs_kind(b));
         let za = build_checked(a, "left")?;
